@@ -9,6 +9,7 @@ import (
 	"os"
 	"os/exec"
 	"path/filepath"
+	"runtime"
 	"sort"
 	"strings"
 	"sync"
@@ -39,8 +40,10 @@ type TestResult struct {
 	Messages []string `json:"messages,omitempty"`
 	Millis   int64    `json:"ms"`
 	Timeout  bool     `json:"timeout,omitempty"`
-	NotReset []string `json:"not_reset,omitempty"`
-	IDNotes  []string `json:"id_notes,omitempty"`
+	// Unrepeated: how many earlier attempts of this test (same start) outlasted the watchdog while this one did not
+	Unrepeated int      `json:"unrepeated,omitempty"`
+	NotReset   []string `json:"not_reset,omitempty"`
+	IDNotes    []string `json:"id_notes,omitempty"`
 }
 
 // CaseResult is the outcome of a case.
@@ -236,7 +239,14 @@ func suiteByName() (map[string]*compliance.TestSpec, []string) {
 // runTest executes one compliance test with fresh fluent clients against e. A test that is still
 // running after wd has its servers stopped (its streams break, the client gives up) and counts as
 // failed; the second result reports a test goroutine that did not end even then.
+// forcedOnce: self-test of the harness (VH_C19_TEST_TIMEOUT_ONCE=<test name>: the first run of that test is cut
+// short as if it had outlasted the watchdog).
+var forcedOnce bool
+
 func runTest(name string, ts *compliance.TestSpec, e *env, wd time.Duration) (TestResult, bool) {
+	if !forcedOnce && os.Getenv("VH_C19_TEST_TIMEOUT_ONCE") == name {
+		forcedOnce, wd = true, time.Millisecond
+	}
 	n := e.fwd
 	if ts.In.RequiresDisallowedForwardReferences {
 		n = e.nofwd
@@ -273,6 +283,16 @@ func runTest(name string, ts *compliance.TestSpec, e *env, wd time.Duration) (Te
 		res.Timeout = true
 		tb.setFatal()
 		tb.note("timeout", fmt.Sprintf("test still running after %v", wd))
+		if wd >= time.Minute {
+			// where everything stands (kept in the replay file: a test that outlasts minutes is waiting for something)
+			buf := make([]byte, 1<<20)
+			n := runtime.Stack(buf, true)
+			dump := string(buf[:n])
+			if len(dump) > 24000 {
+				dump = dump[:24000]
+			}
+			tb.note("goroutines", dump)
+		}
 		e.stop()
 		select {
 		case <-done:
@@ -422,6 +442,37 @@ func runCase(cs Case, suite map[string]*compliance.TestSpec) (CaseResult, []stri
 			prevMax = 0
 		}
 		r, leaked := runTest(name, ts, e, wd)
+		if r.Timeout && !leaked && kind == "reference" && referenceKind() == "reference" && cs.Kind != "patient" {
+			// a verdict is a function of the server's behaviour and of the order of the tests: the same test is given
+			// the same start twice more; a wait that does not recur with the same inputs is recorded (statistics and
+			// messages of this result), not counted as the test's verdict
+			e = nil // the servers of the first attempt are gone
+			for try := 0; try < 2 && r.Timeout; try++ {
+				applyConfig(cfg)
+				e2, err := newEnv(kind, cfg)
+				if err != nil {
+					break
+				}
+				r2, leaked2 := runTest(name, ts, e2, wd)
+				if r2.Timeout {
+					e = nil // runTest has stopped the servers of this attempt
+				} else {
+					e = e2 // what follows goes on with these servers
+				}
+				if leaked2 {
+					leaked = true
+					break
+				}
+				if r2.Timeout {
+					r2.Messages = append(r.Messages, r2.Messages...)
+				} else {
+					r2.Messages = append(r2.Messages, fmt.Sprintf("note: an earlier run of this test from the same start was still running after %v; it did not recur (attempt %d)", wd, try+2))
+					r2.Messages = append(r2.Messages, r.Messages...)
+					r2.Unrepeated = r.Unrepeated + 1
+				}
+				r = r2
+			}
+		}
 		if leaked {
 			problems = append(problems, fmt.Sprintf("HANG: test %q did not end after its servers were stopped", name))
 		}
@@ -726,6 +777,9 @@ func run(args []string) error {
 			rep.Stats["verdict_"+r.Verdict+"_on_"+cs.Server]++
 			if r.Timeout {
 				rep.Stats["watchdog_stopped_on_"+cs.Server]++
+			}
+			if r.Unrepeated > 0 {
+				rep.Stats["reference_test_waits_that_did_not_recur"] += r.Unrepeated
 			}
 			if len(r.NotReset) > 0 {
 				rep.Stats["tests_not_resetting"]++
